@@ -148,6 +148,8 @@ func propC02(w *World, r *Report) {
 	RunNilControls(r)
 	r.Conds["elems-below:cff.readFDSelect"] = condElemsBelowLastParam(w, br, "cff.readFDSelect")
 	r.Conds["monotone-stores:cff.readIndex"] = condMonotoneStores(w, br, "cff.readIndex", false)
+	r.Conds["readindex-size-check"] = condReadIndexSizeCheck(w)
+	r.Conds["gpos4-markcov-reconciled"] = condGpos4Reconciled(w)
 	r.Conds["monotone-stores:glyf.decodeLoca"] = condMonotoneStores(w, br, "glyf.decodeLoca", true)
 	r.Conds["charstring-budget"] = condGlobalBudget(w, "(*cff.decodeInfo).decodeCharString")
 	r.Conds["format12-budget"] = condExpansionBudget(w, "cmap.decodeFormat12")
@@ -806,5 +808,103 @@ func condScalerTypes(w *World) func() (bool, string) {
 			}
 		}
 		return true, ""
+	}
+}
+
+// condReadIndexSizeCheck: the reviewed bound of the allocation in
+// cff.readIndex rests on the test that every offset read lies below the size
+// of the input.
+func condReadIndexSizeCheck(w *World) func() (bool, string) {
+	return func() (bool, string) {
+		fn := w.Func("cff.readIndex")
+		if fn == nil {
+			return false, "cff.readIndex does not resolve"
+		}
+		for _, b := range fn.Blocks {
+			if len(b.Instrs) == 0 {
+				continue
+			}
+			ifi, ok := b.Instrs[len(b.Instrs)-1].(*ssa.If)
+			if !ok {
+				continue
+			}
+			cmp, ok := ifi.Cond.(*ssa.BinOp)
+			if !ok {
+				continue
+			}
+			hasSize := func(v ssa.Value) bool {
+				for x := range backSlice(v) {
+					if c, ok := x.(*ssa.Call); ok && c.Call.StaticCallee() != nil && c.Call.StaticCallee().Name() == "Size" {
+						return true
+					}
+				}
+				return false
+			}
+			isConst := func(v ssa.Value) bool { _, ok := v.(*ssa.Const); return ok }
+			// one side is the size of the input, the other a value read from the file (not a constant)
+			usesSize := (hasSize(cmp.X) && !isConst(cmp.Y) && !hasSize(cmp.Y)) || (hasSize(cmp.Y) && !isConst(cmp.X) && !hasSize(cmp.X))
+			if !usesSize {
+				continue
+			}
+			for _, s := range b.Succs {
+				if rt, ok := s.Instrs[len(s.Instrs)-1].(*ssa.Return); ok && len(rt.Results) == 2 {
+					if c, ok := rt.Results[1].(*ssa.Const); !ok || !c.IsNil() {
+						return true, ""
+					}
+				}
+			}
+		}
+		return false, "no comparison of an offset with the size of the input (p.Size()) that leads to an error return is left in cff.readIndex: the data length of the INDEX is no longer bounded by the input"
+	}
+}
+
+// condGpos4Reconciled: readGpos4_1 makes the mark coverage and the mark
+// array the same length (prune the one or cut the other).
+func condGpos4Reconciled(w *World) func() (bool, string) {
+	return func() (bool, string) {
+		fn := w.Func("opentype/gtab.readGpos4_1")
+		if fn == nil {
+			return false, "gtab.readGpos4_1 does not resolve"
+		}
+		isLen := func(v ssa.Value) bool {
+			c, ok := v.(*ssa.Call)
+			if !ok {
+				return false
+			}
+			bi, ok := c.Call.Value.(*ssa.Builtin)
+			return ok && bi.Name() == "len"
+		}
+		for _, b := range fn.Blocks {
+			if len(b.Instrs) == 0 {
+				continue
+			}
+			ifi, ok := b.Instrs[len(b.Instrs)-1].(*ssa.If)
+			if !ok {
+				continue
+			}
+			cmp, ok := ifi.Cond.(*ssa.BinOp)
+			if !ok || !isLen(cmp.X) || !isLen(cmp.Y) {
+				continue
+			}
+			prune, cut := false, false
+			for _, s := range b.Succs {
+				for _, in := range s.Instrs {
+					switch x := in.(type) {
+					case *ssa.Call:
+						if c := x.Call.StaticCallee(); c != nil && c.Name() == "Prune" {
+							prune = true
+						}
+					case *ssa.Slice:
+						if x.High != nil && isLen(x.High) {
+							cut = true
+						}
+					}
+				}
+			}
+			if prune && cut {
+				return true, ""
+			}
+		}
+		return false, "the step that makes the mark coverage and the mark array the same length (Prune the coverage or cut the array, decided by comparing their lengths) is no longer in readGpos4_1: a covered mark can index past the mark array in Gpos4_1.apply"
 	}
 }
